@@ -145,6 +145,8 @@ func Execute(p *Plan, o ExecOpts) (*ExecOut, error) {
 		for _, v := range rr.Violations {
 			if v.Prop == p.Prop {
 				viol = append(viol, v)
+			} else if strings.HasPrefix(v.Sig, "hang/") {
+				return nil, fmt.Errorf("an operation did not return (reported as a violation by the C07 check, not by this one): %s; history %v", v.Detail, opsStr(v.Hist))
 			}
 		}
 		if s, ok := rr.Stats[p.Prop]; ok {
@@ -244,7 +246,7 @@ func Adjudicate(p *Plan, o ExecOpts, viol []Violation, ev *Evidence) (*ExecOut, 
 		}
 		seen[v.Sig] = true
 		// confirm: 5 re-executions on fresh worlds must fail identically
-		if v.Hist != nil && v.Scen != "" {
+		if v.Hist != nil && v.Scen != "" && !strings.HasPrefix(v.Sig, "hang/") { // a hang cannot be re-executed synchronously
 			if err := confirm(p, v); err != nil {
 				return nil, fmt.Errorf("violation %s/%s did not reproduce deterministically: %w", v.Prop, v.Sig, err)
 			}
@@ -350,9 +352,23 @@ func ReplayFromFile(path string) (bool, string, error) {
 	if err != nil {
 		return false, "", err
 	}
-	_, last, err := replayOps(w, sc, rf.Violation.Hist, p.Monitors())
-	if err != nil {
-		return false, "", err
+	var last []Violation
+	done := make(chan error, 1)
+	go func() {
+		_, l, err := replayOps(w, sc, rf.Violation.Hist, p.Monitors())
+		last = l
+		done <- err
+	}()
+	select {
+	case err := <-done:
+		if err != nil {
+			return false, "", err
+		}
+	case <-time.After(hangAfter):
+		if strings.HasPrefix(rf.Violation.Sig, "hang/") {
+			return false, fmt.Sprintf("REPRODUCED property=%s signature=%s (the history does not return within %s)", rf.Violation.Prop, rf.Violation.Sig, hangAfter), nil
+		}
+		return false, "", fmt.Errorf("replay did not return within %s", hangAfter)
 	}
 	for _, l := range last {
 		if l.Prop == rf.Violation.Prop && l.Sig == rf.Violation.Sig {
